@@ -91,14 +91,12 @@ def pipeline(ctx, mod, args):
     checker_cmd = "cd lean && lake build %s && lake env lean Audit/%s.lean" % (" ".join(targets), pid)
     if not args.no_lean:
         # 2. prove -----------------------------------------------------------------------------
-        okd, outd = common.lean_build([], ctx.log)        # driver only
-        if not okd:
-            ctx.broke("driver-build", outd)
-        else:
-            try:
-                common.snapshot_driver()
-            except common.LeanError as e:
-                ctx.broke("driver-build", str(e))
+        try:
+            common.gen_drivers(ctx.log)
+            for op in getattr(mod, "DRIVER_OPS", []):        # others are built on first use
+                common.driver_for(op, ctx.log)
+        except common.LeanError as e:
+            ctx.broke("driver-build", str(e))
         ok, out = common.lean_build(targets, ctx.log)
         if not ok:
             ctx.broke("proof:lake build " + " ".join(targets), out)
